@@ -1,6 +1,4 @@
 // ---- trusted: the sequential reading of SourceView's interior-mutable cells, and the std string / char operations it uses ----
-global layout usize is size == 8;
-//# assumes: a 64-bit target (usize is 8 bytes)
 //# assumes: (R-seq) used by ONE thread, std::sync::Mutex<T> is a cell holding a T: lock() succeeds (the mutex is never poisoned because no code that holds the guard can panic -- which is proved for the code under contract) and gives exclusive access to the value until the guard is dropped
 #[derive(Debug)]
 pub struct SeqPoison;
@@ -33,8 +31,6 @@ pub open spec fn arc_bytes(a: &Arc<str>) -> Seq<u8> { (**a).spec_bytes() }
 pub fn verif_arc_len(a: &Arc<str>) -> (r: usize) ensures r == arc_bytes(a).len() { a.len() }
 #[verifier::external_body]
 pub fn verif_arc_as_bytes<'a>(a: &'a Arc<str>) -> (r: &'a [u8]) ensures r@ == arc_bytes(a), valid_utf8(r@), r@.len() <= isize::MAX { a.as_bytes() }
-#[verifier::external_body]
-pub proof fn axiom_str_len_fits(s: &str) ensures s.spec_bytes().len() <= isize::MAX {}
 //# assumes: (R-unsafe) `unsafe { str::from_utf8_unchecked(slice::from_raw_parts(p.as_ptr(), p.len())) }` on bytes that ARE valid UTF-8 (a proof obligation at the call) is the str with exactly these bytes; that the 'static lifetime it is given is sound (the Arc<str> outlives the cache and is never changed) is NOT verified
 #[verifier::external_body]
 pub fn verif_static_str_of(rv: &[u8]) -> (r: &'static str)
@@ -53,50 +49,6 @@ pub fn verif_position_u8<F: Fn(&u8) -> bool>(s: &[u8], f: F) -> (r: Option<usize
 #[verifier::external_body]
 pub fn verif_opt_u8_is(o: Option<&u8>, b: u8) -> (r: bool) ensures r == (o matches Some(x) && *x == b) { o == Some(&b) }
 
-// ---- chars / UTF-16 ----
-/// UTF-16 code units of a character
-pub open spec fn u16w(c: char) -> int { if (c as u32) >= 0x10000 { 2 } else { 1 } }
-/// UTF-8 bytes of a character (vstd's encoder)
-pub open spec fn u8w(c: char) -> int { encode_scalar(c as u32).len() as int }
-pub open spec fn utf8_len(cs: Seq<char>) -> int { encode_utf8(cs).len() as int }
-//# assumes: char::len_utf16 is 2 for characters outside the BMP (>= U+10000) and 1 otherwise
-#[verifier::external_body]
-pub fn verif_len_utf16(c: char) -> (r: usize) ensures r == u16w(c) { c.len_utf16() }
-//# assumes: s.chars().peekable(): next pops the first remaining character, peek shows it without consuming; iterating it yields the remaining characters in order
-#[verifier::external_body]
-pub struct VCharsPeek<'a> { it: std::iter::Peekable<std::str::Chars<'a>> }
-pub uninterp spec fn vcp_rest(p: &VCharsPeek) -> Seq<char>;
-impl<'a> VCharsPeek<'a> {
-    #[verifier::external_body]
-    pub fn verif_peek(&mut self) -> (r: Option<&char>)
-        ensures vcp_rest(final(self)) == vcp_rest(old(self)),
-            vcp_rest(old(self)).len() == 0 ==> r is None,
-            vcp_rest(old(self)).len() > 0 ==> (r matches Some(x) && *x == vcp_rest(old(self))[0])
-    { std::iter::Peekable::peek(&mut self.it) }
-}
-impl<'a> Iterator for VCharsPeek<'a> {
-    type Item = char;
-    #[verifier::external_body]
-    fn next(&mut self) -> (r: Option<char>) { self.it.next() }
-}
-impl<'a> IteratorSpecImpl for VCharsPeek<'a> {
-    open spec fn obeys_prophetic_iter_laws(&self) -> bool { true }
-    #[verifier::prophetic]
-    open spec fn remaining(&self) -> Seq<char> { vcp_rest(self) }
-    #[verifier::prophetic]
-    open spec fn will_return_none(&self) -> bool { true }
-    open spec fn decrease(&self) -> Option<nat> { Some(vcp_rest(self).len()) }
-    open spec fn peek(&self, i: int) -> Option<char> {
-        if 0 <= i < vcp_rest(self).len() { Some(vcp_rest(self)[i]) } else { None }
-    }
-}
-#[verifier::external_body]
-pub fn verif_chars_peekable<'a>(s: &'a str) -> (r: VCharsPeek<'a>) ensures vcp_rest(&r) == s@ { VCharsPeek { it: s.chars().peekable() } }
-//# assumes: s.get(a..b) with a and b the UTF-8 offsets of character positions i <= j is the substring of characters i..j
-#[verifier::external_body]
-pub fn verif_str_get_range<'a>(s: &'a str, a: usize, b: usize) -> (r: Option<&'a str>)
-    ensures forall|i: int, j: int| 0 <= i <= j <= s@.len() && a == utf8_len(#[trigger] s@.subrange(0, i)) && b == utf8_len(#[trigger] s@.subrange(0, j)) ==> (r matches Some(x) && x@ == s@.subrange(i, j)),
-{ s.get(a..b) }
 //# assumes: Option::and_then(f) is None for None and f(x) for Some(x)
 #[verifier::external_body]
 pub fn verif_and_then<T, U, F: FnOnce(T) -> Option<U>>(o: Option<T>, f: F) -> (r: Option<U>)
